@@ -3,7 +3,7 @@ NEXT Next
 CONSTANTS
   MaxCoord = 2
   FeatStrands = {"+"}
-  QStrands = {".","+"}
+  QStrands = {"."}
   NContigs = 1
   MemoCap = 4
   MaxFeat = 3
